@@ -118,8 +118,22 @@ func (x *Exec) threadMain(t *thread) {
 			main.resume <- true
 			return
 		}
-		// normal exit: schedule someone else
-		x.threadExit(t)
+		// normal exit: schedule someone else. Choosing the next thread can itself end the path
+		// (scheduling bound, infeasible choice): hand that to the main thread.
+		func() {
+			defer func() {
+				if r2 := recover(); r2 != nil {
+					if _, killed := r2.(threadKilled); killed {
+						return
+					}
+					ts.abort = r2
+					main := ts.threads[0]
+					ts.cur = main
+					main.resume <- true
+				}
+			}()
+			x.threadExit(t)
+		}()
 	}()
 	x.call(t.caller, t.fn, t.args)
 }
@@ -203,7 +217,15 @@ func (x *Exec) schedPoint() {
 			en = append(en, o)
 		}
 	}
+	// preemption bounding (stated in the harness): once the bound is used up the running thread
+	// keeps running at scheduling points where it could continue
+	if x.preemptBound > 0 && x.preemptions >= x.preemptBound {
+		return
+	}
 	next := x.pickThread(en)
+	if next != ts.cur {
+		x.preemptions++
+	}
 	x.switchTo(next)
 }
 
